@@ -14,6 +14,7 @@ from .model import norm_src
 
 VERIF = os.path.dirname(os.path.dirname(os.path.abspath(__file__)))
 OK, VIOLATION, UNRESOLVED, INFO = "OK", "VIOLATION", "UNRESOLVED", "INFO"
+EDIT_GATE = 6  # statements (added + removed) beyond which a function counts as restructured; see Collector.add
 
 
 @dataclass
@@ -77,6 +78,19 @@ class Collector:
         if verdict == VIOLATION and rule in self.shape_rules and not definite:
             verdict = UNRESOLVED
             detail = "code shape outside the recognised idioms (not a verdict): " + (detail or "")
+        if verdict == VIOLATION and rule in self.shape_rules:
+            # A rule that reads a fact off the shape of the code is only trusted where the function still has the shape the
+            # rule was written on: a function that was restructured (many statements differ from the reference's, or the
+            # function is new) is another way of writing things, and the rule gives no verdict there.  Rules that look for
+            # a bad construct wherever it occurs (the lints and the abstract interpreters) are not shape rules.
+            es = self.edit_size(construct)
+            if es is None and getattr(self, "repo", None) is not None and construct in self.repo.defs:
+                verdict = UNRESOLVED
+                detail = "the function is not one the rule was written on (not a verdict): " + (detail or "")
+            elif es is not None and es[0] + es[1] > EDIT_GATE:
+                verdict = UNRESOLVED
+                detail = (f"the function was restructured (+{es[0]}/-{es[1]} statements against the reference): "
+                          f"a shape rule gives no verdict there: ") + (detail or "")
         inst = Instance(rule, construct, loc, what, verdict, detail, stmt or "", facts or {},
                         nontrivial)
         self.instances.append(inst)
@@ -136,6 +150,24 @@ class Collector:
                     # names of the enclosing function are visible here too
                     up = names.unknown_locals(top.node, mod, top.qualname[len(mod) + 1:])
                     res = res | (up or set())
+        cache[construct] = res
+        return res
+
+    def edit_size(self, construct):
+        """how many statements of the (outermost) function `construct` lives in differ from the reference's: (added, removed)"""
+        cache = self.__dict__.setdefault("_edit_cache", {})
+        if construct in cache:
+            return cache[construct]
+        res = None
+        repo = getattr(self, "repo", None)
+        d = repo.defs.get(construct) if repo is not None else None
+        if d is not None:
+            from . import names
+            top = d
+            while top.parent is not None:
+                top = top.parent
+            mod = top.module.name
+            res = names.edit_size(top.node, mod, top.qualname[len(mod) + 1:])
         cache[construct] = res
         return res
 
@@ -432,7 +464,8 @@ def finish(col: Collector, tier: str, t0: float, extra_coverage: Optional[dict] 
 
     for i in col.instances:
         if i.verdict in (VIOLATION, UNRESOLVED):
-            print(f"{i.loc} {i.rule} [{i.construct}] {i.what}: {i.verdict} -- {i.detail}")
+            es = col.edit_size(i.construct) if os.environ.get("VERIF_SHOW_EDIT") and i.verdict == VIOLATION else None
+            print(f"{i.loc} {i.rule} [{i.construct}] {i.what}: {i.verdict} -- " + (f"[edit +{es[0]}/-{es[1]}{' shape' if i.rule in col.shape_rules else ''}] " if es else "") + f"{i.detail}")
     if unresolved and not strict:
         print(f"NO-VERDICT property={prop} {len(unresolved)} instance(s) could not be decided on this tree (listed above as UNRESOLVED "
               f"and in the evidence file); they are neither a pass nor an alarm")
